@@ -19,7 +19,7 @@ package pogreb
 // a proof step names the position with trig, not at every byte read of the file
 //@ spec func trig(q int64) bool
 //@ axiom trig-all: forall q int64 :: trig(q)
-//@ spec func slotsInLog(m mem, n int64, dl *datalog) bool = forall q int64 :: trig(q) && slotPos(q, n) && le32(m, int(q)+12) != 0 ==> slotInSegAt(dl, m, q)
+//@ spec func opaque slotsInLog(m mem, n int64, dl *datalog) bool = forall q int64 :: trig(q) && slotPos(q, n) && le32(m, int(q)+12) != 0 ==> slotInSegAt(dl, m, q)
 //@ spec func idxInLog(db *DB) bool = slotsInLog(fData[fidOf[db.index.main.File]], db.index.main.size, db.datalog) && slotsInLog(fData[fidOf[db.index.overflow.File]], db.index.overflow.size, db.datalog)
 
 // fetchItems drains exactly one bucket chain: it returns nil only at the end of the chain, and what it queues are
